@@ -14,13 +14,14 @@ DYN = {"bool": ("member", ("ident", "a"), "b"), "int": ("member", ("ident", "a")
        "opts": ("member", ("ident", "a"), "f"), "level": ("member", ("ident", "a"), "lv"), "vobj": ("member", ("ident", "a"), "next"),
        "vsub": ("ident", "sub"), "vother": ("ident", "oth"), "qobject": ("ident", "plain"), "strlist": ("member", ("ident", "a"), "names"),
        "intlist": ("member", ("ident", "a"), "nums"), "variant": ("member", ("ident", "a"), "data"), "gadget": ("member", ("ident", "a"), "g"),
-       "void": ("call", ("member", ("ident", "a"), "act"), [("int", 1)])}
+       "void": ("call", ("member", ("ident", "a"), "act"), [("int", 1)]),
+       "omode": ("member", ("ident", "oth"), "e")}     # VOther::Mode: another enum type with the unqualified name of VObj::Mode
 CONST = {"cbool": ("bool", True), "cint": ("int", 3), "cint0": ("int", 0), "cbig": ("int", 4294967296), "cdouble": ("float", "1.5"),
          "cstring": ("str", "s"), "cnull": ("null",), "cempty": ("array", []), "cmode": ("member", ("ident", "VObj"), "ModeB"),
-         "copt": ("member", ("ident", "VObj"), "OptA"), "cneg": ("unary", "-", ("int", 2))}
+         "copt": ("member", ("ident", "VObj"), "OptA"), "cneg": ("unary", "-", ("int", 2)), "comode": ("member", ("ident", "VOther"), "XB")}
 REPS = dict(DYN, **CONST)
 CAST_TARGETS = [["bool"], ["int"], ["uint"], ["double"], ["qreal"], ["QString"], ["QVariant"], ["void"], ["VObj"], ["VSub"], ["QObject"],
-                ["VObj", "Mode"], ["VObj", "Opts"], ["VGadget"], ["Nope"], ["VObj", "Nope"]]
+                ["VObj", "Mode"], ["VObj", "Opts"], ["VGadget"], ["Nope"], ["VObj", "Nope"], ["VOther", "Mode"]]
 
 
 def enum_operator_table():
